@@ -92,7 +92,7 @@ def _print(eng, e, st):
 def bind_args(con, selfpair, args, kwargs, e, eng):
     names = list(con.params)
     vals = {}
-    pos = [n for n in names if n != 'self']
+    pos = [n for n in names if n != 'self' and not n.startswith('$')]
     exprs = {}
     if 'self' in con.params:
         if selfpair is None:
@@ -110,6 +110,8 @@ def bind_args(con, selfpair, args, kwargs, e, eng):
         vals[k.arg] = kwargs[k.arg]
         exprs[k.arg] = k.value
     for n in pos:
+        if n.startswith('$'):
+            continue
         if n not in vals:
             d = getattr(con, 'defaults', {}).get(n)
             if d is None:
@@ -139,6 +141,12 @@ def apply_contract(eng, con, selfpair, args, kwargs, e, st, ctor=None):
         vals, exprs = bind_args(_NoSelf(con), None, args, kwargs, e, eng)
     else:
         vals, exprs = bind_args(con, selfpair, args, kwargs, e, eng)
+    ghosts = [n for n in con.params if n.startswith('$')]
+    for gname in ghosts:
+        if gname not in st.env:
+            raise Unsupported('%s: callee %s needs ghost state %s which the caller does not carry'
+                              % (fc.qualname, con.qualname, gname))
+        vals[gname] = st.env[gname]
     for n, shp in con.params.items():
         if n in vals:
             vals[n] = coerce(vals[n], shp, eng)
@@ -152,7 +160,7 @@ def apply_contract(eng, con, selfpair, args, kwargs, e, st, ctor=None):
         m1 = con.decreases(c)
         eng.emit(VC('%s.decreases' % tag, st.pc, z3.And(m1 >= 0, m1 < m0), 'decr', fn=fc.qualname))
     elif con.qualname == fc.qualname:
-        raise Unsupported('%s is recursive but its contract has no decreases clause' % con.qualname)
+        eng.assumed.add('termination of the recursion in %s is not verified (partial correctness)' % con.qualname)
     if con.trusted:
         eng.assumed.add(con.qualname)
     nopt = len(con.cases) + len(con.raises)
@@ -164,7 +172,7 @@ def apply_contract(eng, con, selfpair, args, kwargs, e, st, ctor=None):
         st.assume(case.when(c))
     res = case.make(c)
     after = {}
-    for m in con.mutates:
+    for m in list(con.mutates) + ghosts:
         after[m] = fresh(con.params[m], m + "'")
     if 'self' in con.params and con.self_modifies:
         obj = vals['self']
@@ -191,6 +199,8 @@ def apply_contract(eng, con, selfpair, args, kwargs, e, st, ctor=None):
     # write back mutated objects into the caller's l-values
     for m in con.mutates:
         eng.assign(exprs[m], after[m], st)
+    for gname in ghosts:
+        st.env[gname] = after[gname]
     if 'self' in con.params and con.self_modifies and ctor is None:
         eng.assign(exprs['self'], after['self'], st)
     return res
@@ -223,6 +233,7 @@ def inline_ctor(eng, q, args, kwargs, e, st):
     dummy.locals = {}
     dummy.loops = {}
     dummy.call_writes = {}
+    dummy.params = {}
     inner = FnCtx(eng, dummy, node, q + '.__init__', src)
     inner.safe_n = outer.safe_n
     env = {'self': PObj(q, {})}
